@@ -1,4 +1,5 @@
 import Netpol.Proofs.DiffLayer
+import Netpol.Proofs.DiffComputed
 
 /-! C04: the diff of two connectivity reports is pointwise exact.
 
@@ -40,7 +41,26 @@ Hypotheses.
 * `DiffLayer.ConnStrInj` (for the points with an address): within a report the connection string
   determines the exported connection view. Needed because the code groups the refined entries by
   the connection *strings* and lets the first entry of a group stand for all of them; true of the
-  canonical views the analyzer exports (not proved here). -/
+  canonical views the analyzer exports (not proved here).
+
+End to end (section G, proofs in `Netpol.Proofs.DiffComputed`). For the reports the analyzer itself
+computes — `WorldDriver.listFor a = .ok (e1, p1)`, `WorldDriver.listFor b = .ok (e2, p2)`, the two
+list analyses `WorldDriver.runDiff a b` feeds to `Diff.compute` (`runDiff_eq`), ingress-controller
+lines included — `ReportWF` and `ConnStrInj` are theorems (`DiffComputed.listFor_reportWF`,
+`DiffComputed.listFor_connStrInj`), and A, E, F hold of `Diff.compute e1 e2 p1 p2` under hypotheses
+on the two inputs only (`computed_diff_pointwise_wl`, `computed_diff_pointwise_ip`,
+`computed_diff_entries_shape`, `computed_diff_swap_wl`, `computed_diff_swap_ip`,
+`computed_diff_self_unchanged`). The input hypotheses, all decidable (`DiffComputed.InputOK`):
+* `PodsNotFake`: no pod document carries the analyzer's own `fake` mark (the parser never sets it;
+  it is what distinguishes the pseudo peer `{ingress-controller}` from the workloads);
+* `NamesNoSemi`: namespaces, names, owner names and kinds hold no `;`;
+* `PodPortsValid`, `PoliciesValid`: container ports and policy rules as the API server accepts them
+  (needed for `ConnStrInj` only: they make every computed connection set `ConnSet.WF`, and the
+  printer is injective on the views of such sets, `DiffComputed.connStr_inj`).
+No hypothesis on keys (duplicate documents), on Services / Ingresses / Routes, nor on the order of
+the documents is needed. The points `s`, `d`, `w` of the theorems still carry `NoSemi` / `NotIP`:
+they hold of every workload name of the two reports and of `{ingress-controller}`
+(`computed_peer_name_ok`, `ic_name_ok`). -/
 namespace Netpol.Properties.C04
 open Netpol Netpol.Engine Netpol.Diff Netpol.DiffLayer
 
@@ -746,5 +766,486 @@ example : expected "default/a[Pod]" "0.0.0.0-0.0.0.9" (lookupIP false exR5 "defa
     (lookupIP false exR6 "default/a[Pod]" 7) [] [] =
     some ⟨"changed", "default/a[Pod]", "0.0.0.0-0.0.0.9", "All Connections", "All Connections", false, false⟩ := by
   decide
+
+/-! ## G. end to end: the reports the analyzer computes -/
+
+section Computed
+open WorldDriver DiffComputed
+
+variable {a b : List Obj} {e1 e2 : List Entry} {p1 p2 : List LPeer}
+
+/-- `runDiff` prints `Diff.compute` of the two list analyses `listFor` -/
+theorem runDiff_eq (h1 : listFor a = .ok (e1, p1)) (h2 : listFor b = .ok (e2, p2)) :
+    runDiff a b =
+      .list (.atom "ok" :: (sortStrs ((compute e1 e2 p1 p2).map fun d =>
+        " ".intercalate [d.typ, d.src, d.dst, us d.c1, us d.c2, b01 d.newSrc, b01 d.newDst])).map
+          fun l => .list (.atom "d" :: (l.splitOn " ").map .atom)) :=
+  runDiff_of_listFor h1 h2
+
+/-- **a computed report is well-formed** (hypotheses on the input only) -/
+theorem computed_reportWF (h1 : listFor a = .ok (e1, p1)) (hf : PodsNotFake a)
+    (hs : NamesNoSemi a) : ReportWF (e1.map ofEntry) := listFor_reportWF h1 hf hs
+
+/-- **in a computed report the connection string determines the exported view** -/
+theorem computed_connStrInj (h1 : listFor a = .ok (e1, p1)) (ha : InputOK a) :
+    ConnStrInj (e1.map ofEntry) := listFor_connStrInj h1 ha
+
+/-- the workload names of a computed report are names the theorems on points apply to -/
+theorem computed_peer_name_ok (h1 : listFor a = .ok (e1, p1)) (hs : NamesNoSemi a) :
+    ∀ n pod, LPeer.wl n pod ∈ p1 → NoSemi n ∧ NotIP n := listFor_peer_name_ok h1 hs
+
+/-- … and so is the name of the ingress-controller pseudo peer -/
+theorem ic_name_ok : NoSemi "{ingress-controller}" ∧ NotIP "{ingress-controller}" :=
+  DiffComputed.ic_name_ok
+
+/-- **A, end to end.** For two inputs on which the list analysis succeeds: the entries of the
+computed diff named by two workload names are exactly the specified entry. -/
+theorem computed_diff_pointwise_wl (h1 : listFor a = .ok (e1, p1)) (h2 : listFor b = .ok (e2, p2))
+    (hfa : PodsNotFake a) (hsa : NamesNoSemi a) (hfb : PodsNotFake b) (hsb : NamesNoSemi b)
+    {s d : String} (hs : NoSemi s) (hsip : NotIP s) (hdip : NotIP d) :
+    (compute e1 e2 p1 p2).filter (fun e => e.src == s && e.dst == d) =
+      (expected s d (lookup (e1.map ofEntry) s d) (lookup (e2.map ofEntry) s d)
+        (peerNames p1) (peerNames p2)).toList :=
+  compute_pointwise_wl e1 e2 p1 p2 (listFor_reportWF h1 hfa hsa) (listFor_reportWF h2 hfb hsb) hs
+    hsip hdip
+
+/-- **E, end to end.** For a workload name `w` and an address `x` (`dir`: the address is the
+source): no entry of the computed diff is named by `w` and a range containing `x` when neither report
+holds a connection; otherwise exactly one such range carries an entry, that entry is the specified
+one, and the range is the maximal one around `x` on which the pair of connection strings is
+constant. -/
+theorem computed_diff_pointwise_ip (h1 : listFor a = .ok (e1, p1)) (h2 : listFor b = .ok (e2, p2))
+    (ha : InputOK a) (hb : InputOK b) (dir : Bool) {w : String} (hwns : NoSemi w) (hwip : NotIP w)
+    (x : Int) :
+    (lookupIP dir (e1.map ofEntry) w x = none → lookupIP dir (e2.map ofEntry) w x = none →
+      ∀ r, ValidR r → r.mem x → entriesAt (compute e1 e2 p1 p2) dir w r = []) ∧
+    (((lookupIP dir (e1.map ofEntry) w x).isSome ∨ (lookupIP dir (e2.map ofEntry) w x).isSome) →
+      ∃ r, ValidR r ∧ r.mem x ∧
+      entriesAt (compute e1 e2 p1 p2) dir w r =
+        (expected (namesIP dir w r).1 (namesIP dir w r).2 (lookupIP dir (e1.map ofEntry) w x)
+          (lookupIP dir (e2.map ofEntry) w x) (peerNames p1) (peerNames p2)).toList ∧
+      (∀ r', ValidR r' → r'.mem x → r' ≠ r → entriesAt (compute e1 e2 p1 p2) dir w r' = []) ∧
+      (∀ y, r.mem y → strsAt dir (e1.map ofEntry) (e2.map ofEntry) w y =
+        strsAt dir (e1.map ofEntry) (e2.map ofEntry) w x) ∧
+      strsAt dir (e1.map ofEntry) (e2.map ofEntry) w (r.lo - 1) ≠
+        strsAt dir (e1.map ofEntry) (e2.map ofEntry) w x ∧
+      strsAt dir (e1.map ofEntry) (e2.map ofEntry) w (r.hi + 1) ≠
+        strsAt dir (e1.map ofEntry) (e2.map ofEntry) w x) :=
+  diff_pointwise_ip (peerNames p1) (peerNames p2) (listFor_reportWF' h1 ha) (listFor_reportWF' h2 hb)
+    (listFor_connStrInj h1 ha) (listFor_connStrInj h2 hb) dir hwns hwip x
+
+/-- **no other entries, end to end**: every entry of the computed diff is the entry of a point -/
+theorem computed_diff_entries_shape (h1 : listFor a = .ok (e1, p1)) (h2 : listFor b = .ok (e2, p2))
+    (hfa : PodsNotFake a) (hsa : NamesNoSemi a) (hfb : PodsNotFake b) (hsb : NamesNoSemi b) :
+    ∀ e ∈ compute e1 e2 p1 p2,
+      (NoSemi e.src ∧ NotIP e.src ∧ NotIP e.dst) ∨
+      (∃ dir w r, NoSemi w ∧ NotIP w ∧ ValidR r ∧ e.src = (namesIP dir w r).1 ∧
+        e.dst = (namesIP dir w r).2) :=
+  diff_entries_shape (peerNames p1) (peerNames p2) (listFor_reportWF h1 hfa hsa)
+    (listFor_reportWF h2 hfb hsb)
+
+/-- **F, end to end, workload–workload points**: the diff of the inputs exchanged is the diff with
+the sides exchanged -/
+theorem computed_diff_swap_wl (h1 : listFor a = .ok (e1, p1)) (h2 : listFor b = .ok (e2, p2))
+    (hfa : PodsNotFake a) (hsa : NamesNoSemi a) (hfb : PodsNotFake b) (hsb : NamesNoSemi b)
+    {s d : String} (hs : NoSemi s) (hsip : NotIP s) (hdip : NotIP d) :
+    (compute e2 e1 p2 p1).filter (fun e => e.src == s && e.dst == d) =
+      ((compute e1 e2 p1 p2).filter (fun e => e.src == s && e.dst == d)).map swapEntry := by
+  have w1 := listFor_reportWF h1 hfa hsa
+  have w2 := listFor_reportWF h2 hfb hsb
+  exact diff_swap_wl (peerNames p1) (peerNames p2) w1.nodup w2.nodup (reportWF_noSemi_src w1)
+    (reportWF_noSemi_src w2) hs hsip hdip
+
+/-- **F, end to end, workload–address points** -/
+theorem computed_diff_swap_ip (h1 : listFor a = .ok (e1, p1)) (h2 : listFor b = .ok (e2, p2))
+    (ha : InputOK a) (hb : InputOK b) (dir : Bool) {w : String} (hwns : NoSemi w) (hwip : NotIP w)
+    (x : Int) (r : Iv) (hv : ValidR r) (hrx : r.mem x) :
+    entriesAt (compute e2 e1 p2 p1) dir w r =
+      (entriesAt (compute e1 e2 p1 p2) dir w r).map swapEntry :=
+  diff_swap_ip (peerNames p1) (peerNames p2) (listFor_reportWF' h1 ha) (listFor_reportWF' h2 hb)
+    (listFor_connStrInj h1 ha) (listFor_connStrInj h2 hb) dir hwns hwip x r hv hrx
+
+/-- **B, end to end**: the diff of an input with itself has only `unchanged` entries (no hypothesis
+on the input) -/
+theorem computed_diff_self_unchanged (_h1 : listFor a = .ok (e1, p1)) :
+    ∀ e ∈ compute e1 e1 p1 p1, e.typ = "unchanged" := compute_self_unchanged e1 p1 p1
+
+/-- the specified type of a point on which both computed reports hold a connection is `unchanged`
+exactly when the two connection strings are equal (the views are determined by the strings across
+the two reports as well) -/
+theorem computed_unchanged_iff_strings (h1 : listFor a = .ok (e1, p1)) (h2 : listFor b = .ok (e2, p2))
+    (ha : InputOK a) (hb : InputOK b) {x y : P2P} (hx : x ∈ e1.map ofEntry)
+    (hy : y ∈ e2.map ofEntry) : (x.all = y.all ∧ x.ports = y.ports) ↔ x.connStr = y.connStr := by
+  constructor
+  · rintro ⟨h, h'⟩
+    unfold P2P.connStr
+    rw [h, h']
+  · exact listFor_connStr_inj2 h1 h2 ha hb x hx y hy
+
+end Computed
+
+/-! ### a pair of inputs: two pods, a NetworkPolicy with an ipBlock on each side -/
+
+namespace ComputedExample
+open WorldDriver DiffComputed
+
+def podA : Pod := { ns := "default", name := "a", labels := [("app", "a")], ports := [] }
+def podB : Pod :=
+  { ns := "default", name := "b", labels := [("app", "b")], ports := [⟨"http", .TCP, 8080⟩] }
+def nsDefault : NsObj := ⟨"default", [(nsNameLabelKey, "default")]⟩
+
+/-- `10.0.0.0/8` -/
+def cidr10 : Cidr := ⟨167772160, 8⟩
+def range10 : Iv := ⟨167772160, 184549375⟩
+
+/-- egress of `a`: TCP 80 to 10.0.0.0/8 -/
+def np1 : NetPol :=
+  { ns := "default", name := "a-egress", podSel := ⟨[("app", "a")], []⟩, types := [.egress],
+    ingress := [], egress := [⟨[.ip cidr10 []], [⟨some .TCP, .num 80 none⟩]⟩] }
+
+/-- egress of `a`: TCP 80 and 443 to 10.0.0.0/8, everything to `b` -/
+def np2 : NetPol :=
+  { ns := "default", name := "a-egress", podSel := ⟨[("app", "a")], []⟩, types := [.egress],
+    ingress := [],
+    egress := [⟨[.ip cidr10 []], [⟨some .TCP, .num 80 none⟩, ⟨some .TCP, .num 443 none⟩]⟩,
+      ⟨[.sel (some ⟨[("app", "b")], []⟩) none], []⟩] }
+
+def wA : List Obj := [.pod podA, .pod podB, .np np1]
+def wB : List Obj := [.pod podA, .pod podB, .np np2]
+
+/-- the input hypotheses hold of both sides -/
+theorem inputOK : InputOK wA ∧ InputOK wB := by decide
+
+def engOf (np : NetPol) : Engine :=
+  { namespaces := [nsDefault], pods := [podA, podB], netpols := [np] }
+
+theorem build_wA : Engine.build wA = .ok (engOf np1) := rfl
+theorem build_wB : Engine.build wB = .ok (engOf np2) := rfl
+
+def peers : List LPeer :=
+  [.ip ⟨0, 167772159⟩, .ip range10, .ip ⟨184549376, 4294967295⟩, .wl "default/a[Pod]" podA,
+    .wl "default/b[Pod]" podB]
+
+theorem blocks_eq (np : NetPol) (h : np.referencedIPBlocks = [range10]) :
+    (engOf np).disjointIPBlocks = [⟨0, 167772159⟩, range10, ⟨184549376, 4294967295⟩] := by
+  unfold disjointIPBlocks
+  simp only [engOf, List.flatMap_cons, List.flatMap_nil, List.append_nil, h]
+  simp [partition, range10, List.mergeSort, List.MergeSort.Internal.splitInTwo, ipMax,
+    List.eraseDups_cons]
+
+theorem owners_eq (np : NetPol) :
+    (engOf np).podOwnersMap = .ok [("default/a[Pod]", podA), ("default/b[Pod]", podB)] := by
+  rw [Structure.podOwnersMap_eq (l := [podA, podB]) (List.Perm.refl _) (by decide)]
+  rfl
+
+theorem peersList_eq (np : NetPol) (h : np.referencedIPBlocks = [range10]) :
+    (engOf np).peersList = .ok peers := by
+  unfold peersList
+  rw [blocks_eq np h, owners_eq]
+  rfl
+
+theorem exists_of_isOk {α : Type} {x : Except Err α} (h : x.isOk = true) : ∃ v, x = .ok v := by
+  cases x with
+  | error e => simp [Except.isOk, Except.toBool] at h
+  | ok v => exact ⟨v, rfl⟩
+
+/-- the list analysis succeeds on both sides -/
+theorem listFor_wA : ∃ e1, listFor wA = .ok (e1, peers) := by
+  obtain ⟨e1, hc⟩ := exists_of_isOk (x := (engOf np1).connsBetweenPeers peers "") (by decide)
+  exact ⟨e1, listFor_ok_noIngress build_wA rfl (peersList_eq np1 (by decide)) (owners_eq np1) hc rfl⟩
+
+theorem listFor_wB : ∃ e2, listFor wB = .ok (e2, peers) := by
+  obtain ⟨e2, hc⟩ := exists_of_isOk (x := (engOf np2).connsBetweenPeers peers "") (by decide)
+  exact ⟨e2, listFor_ok_noIngress build_wB rfl (peersList_eq np2 (by decide)) (owners_eq np2) hc rfl⟩
+
+/-- **the hypotheses of the end-to-end theorems are satisfiable**: both list analyses succeed, the
+inputs are `InputOK`, and the theorems apply — here the one on workload–address points at workload
+`default/a[Pod]` and address 10.1.2.3, the swap at the same point, and the one on pairs of workloads
+at (`a`, `b`) -/
+example : ∃ e1 e2 p1 p2, listFor wA = .ok (e1, p1) ∧ listFor wB = .ok (e2, p2) ∧ InputOK wA ∧
+    InputOK wB ∧ ReportWF (e1.map ofEntry) ∧ ReportWF (e2.map ofEntry) ∧
+    ConnStrInj (e1.map ofEntry) ∧ ConnStrInj (e2.map ofEntry) ∧
+    (compute e1 e2 p1 p2).filter (fun e => e.src == "default/a[Pod]" && e.dst == "default/b[Pod]") =
+      (expected "default/a[Pod]" "default/b[Pod]"
+        (lookup (e1.map ofEntry) "default/a[Pod]" "default/b[Pod]")
+        (lookup (e2.map ofEntry) "default/a[Pod]" "default/b[Pod]") (peerNames p1) (peerNames p2)).toList ∧
+    (∀ r, ValidR r → r.mem 167837955 →
+      entriesAt (compute e2 e1 p2 p1) false "default/a[Pod]" r =
+        (entriesAt (compute e1 e2 p1 p2) false "default/a[Pod]" r).map swapEntry) := by
+  obtain ⟨e1, h1⟩ := listFor_wA
+  obtain ⟨e2, h2⟩ := listFor_wB
+  obtain ⟨ha, hb⟩ := inputOK
+  obtain ⟨hns, hnip⟩ := computed_peer_name_ok h1 ha.noSemi "default/a[Pod]" podA (by simp [peers])
+  obtain ⟨_, hnipb⟩ := computed_peer_name_ok h1 ha.noSemi "default/b[Pod]" podB (by simp [peers])
+  exact ⟨e1, e2, peers, peers, h1, h2, ha, hb, computed_reportWF h1 ha.notFake ha.noSemi,
+    computed_reportWF h2 hb.notFake hb.noSemi, computed_connStrInj h1 ha, computed_connStrInj h2 hb,
+    computed_diff_pointwise_wl h1 h2 ha.notFake ha.noSemi hb.notFake hb.noSemi hns hnip hnipb,
+    fun r hv hr => computed_diff_swap_ip h1 h2 ha hb false hns hnip 167837955 r hv hr⟩
+
+/-- the entries of the two loops, as terms the kernel can evaluate -/
+def entriesOf (np : NetPol) : List Entry :=
+  match (engOf np).connsBetweenPeers peers "" with
+  | .ok es => es
+  | .error _ => []
+
+theorem conns_eq (np : NetPol) (h : ((engOf np).connsBetweenPeers peers "").isOk = true) :
+    (engOf np).connsBetweenPeers peers "" = .ok (entriesOf np) := by
+  obtain ⟨v, hv⟩ := exists_of_isOk h
+  unfold entriesOf
+  rw [hv]
+
+theorem listFor_wA_eq : listFor wA = .ok (entriesOf np1, peers) :=
+  listFor_ok_noIngress build_wA rfl (peersList_eq np1 (by decide)) (owners_eq np1)
+    (conns_eq np1 (by decide)) rfl
+
+theorem listFor_wB_eq : listFor wB = .ok (entriesOf np2, peers) :=
+  listFor_ok_noIngress build_wB rfl (peersList_eq np2 (by decide)) (owners_eq np2)
+    (conns_eq np2 (by decide)) rfl
+
+/-- what the two computed reports hold for workload `a` and the address 10.1.2.3 -/
+theorem lookups : (lookupIP false ((entriesOf np1).map ofEntry) "default/a[Pod]" 167837955).map
+      (·.connStr) = some "TCP 80" ∧
+    (lookupIP false ((entriesOf np2).map ofEntry) "default/a[Pod]" 167837955).map (·.connStr) =
+      some "TCP 80,443" := by decide
+
+/-- **theorem E at work on the computed reports**: around 10.1.2.3 the computed diff has, for
+workload `a` as source, exactly one entry, `changed` from `TCP 80` to `TCP 80,443`, on the maximal
+range on which the two reports hold this pair of connections -/
+example : ∃ r, ValidR r ∧ r.mem 167837955 ∧
+    entriesAt (compute (entriesOf np1) (entriesOf np2) peers peers) false "default/a[Pod]" r =
+      [⟨"changed", "default/a[Pod]", (LPeer.ip r).str, "TCP 80", "TCP 80,443", false, false⟩] ∧
+    ∀ r', ValidR r' → r'.mem 167837955 → r' ≠ r →
+      entriesAt (compute (entriesOf np1) (entriesOf np2) peers peers) false "default/a[Pod]" r' = [] := by
+  obtain ⟨ha, hb⟩ := inputOK
+  obtain ⟨hns, hnip⟩ := computed_peer_name_ok listFor_wA_eq ha.noSemi "default/a[Pod]" podA
+    (by simp [peers])
+  obtain ⟨l1, l2⟩ := lookups
+  obtain ⟨_, hsome⟩ := computed_diff_pointwise_ip listFor_wA_eq listFor_wB_eq ha hb false hns hnip
+    167837955
+  cases ho1 : lookupIP false ((entriesOf np1).map ofEntry) "default/a[Pod]" 167837955 with
+  | none => rw [ho1] at l1; cases l1
+  | some x =>
+    cases ho2 : lookupIP false ((entriesOf np2).map ofEntry) "default/a[Pod]" 167837955 with
+    | none => rw [ho2] at l2; cases l2
+    | some y =>
+      rw [ho1] at l1 hsome
+      rw [ho2] at l2 hsome
+      simp only [Option.map_some, Option.some.injEq] at l1 l2
+      obtain ⟨r, hv, hrx, he, hother, _⟩ := hsome (Or.inl rfl)
+      refine ⟨r, hv, hrx, ?_, hother⟩
+      rw [he]
+      have hne : ¬ (x.all = y.all ∧ x.ports = y.ports) := by
+        rintro ⟨h, h'⟩
+        have : x.connStr = y.connStr := by unfold P2P.connStr; rw [h, h']
+        rw [l1, l2] at this
+        revert this
+        decide
+      simp [expected, namesIP, hne, l1, l2]
+
+end ComputedExample
+
+/-! ### a pair of inputs with a Service and an Ingress: the ingress-controller line -/
+
+namespace IngressExample
+open WorldDriver DiffComputed
+
+def podW : Pod :=
+  { ns := "default", name := "w", labels := [("app", "w")],
+    ports := [⟨"http", .TCP, 80⟩, ⟨"alt", .TCP, 8080⟩] }
+def podC : Pod := { ns := "default", name := "c", labels := [("app", "c")], ports := [] }
+def nsDefault : NsObj := ⟨"default", [(nsNameLabelKey, "default")]⟩
+
+def svcW : Service :=
+  { ns := "default", name := "svc", selector := [("app", "w")],
+    ports := [⟨"http", 80, some 80, none, .TCP⟩, ⟨"alt", 8080, some 8080, none, .TCP⟩] }
+
+/-- default backend `svc:80`, one rule path to `svc:8080` -/
+def ingW : Ingress :=
+  { ns := "default", name := "ing", default := some ⟨"svc", some 80, none⟩,
+    rules := [[⟨"svc", some 8080, none⟩]] }
+
+/-- ingress of `w`: TCP 80 only -/
+def npW : NetPol :=
+  { ns := "default", name := "w-ingress", podSel := ⟨[("app", "w")], []⟩, types := [.ingress],
+    ingress := [⟨[], [⟨some .TCP, .num 80 none⟩]⟩], egress := [] }
+
+def w1 : List Obj := [.pod podW, .pod podC, .svc svcW, .ing ingW]
+def w2 : List Obj := [.pod podW, .pod podC, .svc svcW, .ing ingW, .np npW]
+
+theorem inputOK : InputOK w1 ∧ InputOK w2 := by decide
+
+def engOf (nps : List NetPol) : Engine :=
+  { namespaces := [nsDefault], pods := [podW, podC], netpols := nps }
+
+theorem build_w1 : Engine.build w1 = .ok (engOf []) := rfl
+theorem build_w2 : Engine.build w2 = .ok (engOf [npW]) := rfl
+
+def owners : List (String × Pod) := [("default/c[Pod]", podC), ("default/w[Pod]", podW)]
+
+def peers : List LPeer :=
+  [.ip ⟨0, 4294967295⟩, .wl "default/c[Pod]" podC, .wl "default/w[Pod]" podW]
+
+theorem blocks_eq (nps : List NetPol) (h : nps.flatMap (·.referencedIPBlocks) = []) :
+    (engOf nps).disjointIPBlocks = [⟨0, 4294967295⟩] := by
+  unfold disjointIPBlocks
+  simp only [engOf, h]
+  simp [partition, List.mergeSort, List.MergeSort.Internal.splitInTwo, ipMax, List.eraseDups_cons]
+
+theorem owners_eq (nps : List NetPol) : (engOf nps).podOwnersMap = .ok owners := by
+  rw [Structure.podOwnersMap_eq (l := [podC, podW]) (List.Perm.swap _ _ _) (by decide)]
+  rfl
+
+theorem peersList_eq (nps : List NetPol) (h : nps.flatMap (·.referencedIPBlocks) = []) :
+    (engOf nps).peersList = .ok peers := by
+  unfold peersList
+  rw [blocks_eq nps h, owners_eq]
+  rfl
+
+def entriesOf (nps : List NetPol) : List Entry :=
+  match (engOf nps).connsBetweenPeers peers "" with
+  | .ok es => es
+  | .error _ => []
+
+def ingOf (objs : List Obj) (nps : List NetPol) : List Entry × List String :=
+  match IngressA.ingressEntries (engOf nps) objs owners "" with
+  | .ok r => r
+  | .error _ => ([], [])
+
+theorem conns_eq (nps : List NetPol) (h : ((engOf nps).connsBetweenPeers peers "").isOk = true) :
+    (engOf nps).connsBetweenPeers peers "" = .ok (entriesOf nps) := by
+  obtain ⟨v, hv⟩ := ComputedExample.exists_of_isOk h
+  unfold entriesOf
+  rw [hv]
+
+theorem ing_eq (objs : List Obj) (nps : List NetPol)
+    (h : (IngressA.ingressEntries (engOf nps) objs owners "").isOk = true) :
+    IngressA.ingressEntries (engOf nps) objs owners "" = .ok ((ingOf objs nps).1, (ingOf objs nps).2) := by
+  obtain ⟨v, hv⟩ := ComputedExample.exists_of_isOk h
+  unfold ingOf
+  rw [hv]
+
+/-- the two computed reports: the loop, then the one ingress-controller line -/
+theorem listFor_w1 : listFor w1 = .ok (entriesOf [] ++ (ingOf w1 []).1, peers) := by
+  have := listFor_ok_of_parts build_w1 rfl (peersList_eq [] rfl) (owners_eq [])
+    (conns_eq [] (by decide)) (ing_eq w1 [] (by decide))
+  rwa [sortIngress_short (by decide)] at this
+
+theorem listFor_w2 : listFor w2 = .ok (entriesOf [npW] ++ (ingOf w2 [npW]).1, peers) := by
+  have := listFor_ok_of_parts build_w2 rfl (peersList_eq [npW] (by decide)) (owners_eq [npW])
+    (conns_eq [npW] (by decide)) (ing_eq w2 [npW] (by decide))
+  rwa [sortIngress_short (by decide)] at this
+
+/-- what the two reports hold for the pair (`{ingress-controller}`, `w`) -/
+theorem lookups :
+    (lookup ((entriesOf [] ++ (ingOf w1 []).1).map ofEntry) "{ingress-controller}" "default/w[Pod]").map
+      (·.connStr) = some "TCP 80,8080" ∧
+    (lookup ((entriesOf [npW] ++ (ingOf w2 [npW]).1).map ofEntry) "{ingress-controller}"
+      "default/w[Pod]").map (·.connStr) = some "TCP 80" := by decide
+
+/-- **theorem A at work on computed reports with an ingress-controller line**: the computed diff has
+exactly one entry for (`{ingress-controller}`, `w`), `changed` from `TCP 80,8080` to `TCP 80` -/
+example : (compute (entriesOf [] ++ (ingOf w1 []).1) (entriesOf [npW] ++ (ingOf w2 [npW]).1) peers
+      peers).filter (fun e => e.src == "{ingress-controller}" && e.dst == "default/w[Pod]") =
+    [⟨"changed", "{ingress-controller}", "default/w[Pod]", "TCP 80,8080", "TCP 80", false, false⟩] := by
+  obtain ⟨ha, hb⟩ := inputOK
+  obtain ⟨_, hnipw⟩ := computed_peer_name_ok listFor_w1 ha.noSemi "default/w[Pod]" podW
+    (by simp [peers])
+  rw [computed_diff_pointwise_wl listFor_w1 listFor_w2 ha.notFake ha.noSemi hb.notFake hb.noSemi
+    ic_name_ok.1 ic_name_ok.2 hnipw]
+  obtain ⟨l1, l2⟩ := lookups
+  cases ho1 : lookup ((entriesOf [] ++ (ingOf w1 []).1).map ofEntry) "{ingress-controller}"
+      "default/w[Pod]" with
+  | none => rw [ho1] at l1; cases l1
+  | some x =>
+    cases ho2 : lookup ((entriesOf [npW] ++ (ingOf w2 [npW]).1).map ofEntry) "{ingress-controller}"
+        "default/w[Pod]" with
+    | none => rw [ho2] at l2; cases l2
+    | some y =>
+      rw [ho1] at l1
+      rw [ho2] at l2
+      simp only [Option.map_some, Option.some.injEq] at l1 l2
+      have hne : ¬ (x.all = y.all ∧ x.ports = y.ports) := by
+        rintro ⟨h, h'⟩
+        have : x.connStr = y.connStr := by unfold P2P.connStr; rw [h, h']
+        rw [l1, l2] at this
+        revert this
+        decide
+      simp [expected, hne, l1, l2]
+
+/-! #### why `PodsNotFake`
+
+A pod document carrying the analyzer's own `fake` mark and the name `ingress-controller` (no
+Kubernetes manifest can say so; the parser never produces one) is reported under the string of the
+pseudo peer. With an Ingress the computed report then holds the pair (`{ingress-controller}`, `w`)
+twice — the line of the loop (All Connections) and the ingress-controller line (TCP 80,8080) —, so it
+is not `ReportWF`; the diff map keeps the last line written under the key, `lookup` the first one.
+(`#eval`: against the same input without the Ingress the computed diff says `changed`, TCP 80,8080
+to All Connections, for the pair, where `expected` says `unchanged`.) -/
+
+def fakeIC : Pod :=
+  { ns := "default", name := "ingress-controller", labels := [], ports := [], fake := true }
+
+def wF : List Obj := [.pod podW, .pod fakeIC, .svc svcW, .ing ingW]
+
+example : ¬ PodsNotFake wF ∧ NamesNoSemi wF ∧ PermLayer.PodPortsValid wF ∧
+    PermLayer.PoliciesValid wF := by decide
+
+def engF : Engine := { namespaces := [nsDefault], pods := [podW, fakeIC], netpols := [] }
+
+def ownersF : List (String × Pod) := [("{ingress-controller}", fakeIC), ("default/w[Pod]", podW)]
+
+def peersF : List LPeer :=
+  [.ip ⟨0, 4294967295⟩, .wl "{ingress-controller}" fakeIC, .wl "default/w[Pod]" podW]
+
+def entriesF : List Entry :=
+  match engF.connsBetweenPeers peersF "" with
+  | .ok es => es
+  | .error _ => []
+
+def ingF : List Entry × List String :=
+  match IngressA.ingressEntries engF wF ownersF "" with
+  | .ok r => r
+  | .error _ => ([], [])
+
+theorem listFor_wF : listFor wF = .ok (entriesF ++ ingF.1, peersF) := by
+  have hb : Engine.build wF = .ok engF := rfl
+  have ho : engF.podOwnersMap = .ok ownersF := by
+    rw [Structure.podOwnersMap_eq (l := [fakeIC, podW]) (List.Perm.swap _ _ _) (by decide)]
+    rfl
+  have hp : engF.peersList = .ok peersF := by
+    unfold peersList
+    have : engF.disjointIPBlocks = [⟨0, 4294967295⟩] := by
+      unfold disjointIPBlocks
+      simp [engF, partition, List.mergeSort, List.MergeSort.Internal.splitInTwo, ipMax,
+        List.eraseDups_cons]
+    rw [this, ho]
+    rfl
+  have hc : engF.connsBetweenPeers peersF "" = .ok entriesF := by
+    obtain ⟨v, hv⟩ := ComputedExample.exists_of_isOk
+      (x := engF.connsBetweenPeers peersF "") (by decide)
+    unfold entriesF
+    rw [hv]
+  have hi : IngressA.ingressEntries engF wF ownersF "" = .ok (ingF.1, ingF.2) := by
+    obtain ⟨v, hv⟩ := ComputedExample.exists_of_isOk
+      (x := IngressA.ingressEntries engF wF ownersF "") (by decide)
+    unfold ingF
+    rw [hv]
+  have := listFor_ok_of_parts hb rfl hp ho hc hi
+  rwa [sortIngress_short (by decide)] at this
+
+/-- the computed report of `wF` holds the pair (`{ingress-controller}`, `w`) twice, with two
+different connections: it is not `ReportWF` -/
+example : ¬ ReportWF ((entriesF ++ ingF.1).map ofEntry) ∧
+    ((entriesF ++ ingF.1).map ofEntry).filterMap (fun p =>
+      if p.src.str == "{ingress-controller}" && p.dst.str == "default/w[Pod]" then some p.connStr
+      else none) = ["All Connections", "TCP 80,8080"] := by
+  constructor
+  · intro h
+    have := h.nodup
+    revert this
+    decide
+  · decide
+
+end IngressExample
 
 end Netpol.Properties.C04
